@@ -102,7 +102,7 @@ def check(formulas, timeout_s=20, cross=False, seed=0):
                 res["answer"], res["backend"] = ans, name
                 break
     if cross and res["answer"] in ("sat", "unsat"):
-        cr = run_cli(formulas, timeout_s, only=("cvc5-1.0.3",))
+        cr = run_cli(formulas, min(timeout_s, 15), only=("cvc5-1.0.3",))  # a cross-check that times out is no verdict
         res["cross"] = cr
         for name, ans in cr:
             if ans in ("sat", "unsat") and ans != res["answer"]:
